@@ -395,7 +395,7 @@ def r5_groups(facts, rep):
             for escape in (False, True):
                 dom = c12.LexDomain(ats, facts=facts)
                 it = core.Interp(facts, dom, budget=200000)
-                st = dom.setlex({(0, 0): c12.lexer_value(escape)}, lo, None)
+                st = dom.setlex({(0, 0): c12.lexer_value(escape, facts)}, lo, None)
                 kinds = set()
                 for o in it.run(nx, [Ref(0, 0)], st):
                     v = o.value
